@@ -458,7 +458,7 @@ func c12WideProp(st *CaseStats) func(t *rapid.T) {
 				fam = FamSmall
 			}
 			var err error
-			ins[i], err = GenLeaf(t, ctx, sc, CaseCfg{Family: fam, MaxDocs: 6}, fmt.Sprintf("i%d", i))
+			ins[i], err = GenLeaf(t, ctx, sc, CaseCfg{Family: fam, MaxDocs: 6, TailField: true}, fmt.Sprintf("i%d", i))
 			if err != nil {
 				t.Fatalf("%s: %v", sc, err)
 			}
@@ -509,13 +509,15 @@ func c12WideProp(st *CaseStats) func(t *rapid.T) {
 				}
 				prev = e
 			}
-			// plus ~120 evenly spaced calls and the last 20
+			// plus ~120 evenly spaced calls and the last 80
 			step := len(rec.ends)/120 + 1
 			for c := 0; c < len(rec.ends); c += step {
 				calls[c] = true
 			}
-			for c := len(rec.ends) - 20; c < len(rec.ends); c++ {
-				calls[c] = true
+			for c := len(rec.ends) - 80; c < len(rec.ends); c++ {
+				if c >= 0 {
+					calls[c] = true
+				}
 			}
 		}
 		order := make([]int, 0, len(calls))
